@@ -183,6 +183,8 @@ def run(ctx):
             ctx.check(("float", struct.unpack("<Q", struct.pack("<d", round(rng.uniform(-1e6, 1e6), rng.randrange(0, 9))))[0]), "random-float")
         elif r == 4:
             payload = rng.choice(("", "", "", "\ufeff", "\ufeff\ufeff")) + rand_unicode(rng, rng.randrange(0, 60))
+            if rng.randrange(25) == 0:
+                payload = payload + "x" * rng.randrange(2000, 9000) + rand_unicode(rng, 5)        # several KiB: encoders that work in blocks
             ctx.check(("binary", payload, rng.randrange(2)), "random-binary")
         elif r == 5:
             ctx.check((rng.choice(("uri", "caladdress")), rng.choice(("mailto:", "http://", "urn:", "")) + rand_unicode(rng, rng.randrange(0, 40))), "random-uri")
